@@ -1,4 +1,4 @@
-\* DBLocks.tla: exhaustive, WAL mode, 2 clients + 1 internal writer, read mark 2, reduced vocabulary (no DMS-exclusive probe, no single RECOVER request), every interleaving
+\* DBLocks.tla: model of the candidate repair proposed_fixes/C11-wal-owner.diff (WalOwnerTest = TRUE): WalWriteByHolder holds
 SPECIFICATION Spec
 CONSTANTS
   Clients = {"a", "b"}
@@ -11,11 +11,11 @@ CONSTANTS
   SkipLock = "none"
   TxNoLock = FALSE
   WalGuard = TRUE
-  WalOwnerTest = FALSE
+  WalOwnerTest = TRUE
   Exclude = {"DmsW", "RecovW", "RecovU"}
   Gated = FALSE
   EmitEdges = FALSE
 VIEW view
 INVARIANTS TypeOK LockConsistent WriteSetHeld Exclusion NoBegin SnapshotExcluded EmitInv
-PROPERTIES RefusedWhileWriting EnterOnlyWhenFree WritesInsideSection CkptNeverGrantedUnderForeignWrite WalWriteNeedsWriteLock SingleLockPosix
+PROPERTIES RefusedWhileWriting EnterOnlyWhenFree WritesInsideSection CkptNeverGrantedUnderForeignWrite WalWriteNeedsWriteLock SingleLockPosix WalWriteByHolder
 CHECK_DEADLOCK FALSE
